@@ -36,12 +36,15 @@ MANIFEST = {
             "goroutines over Go channels; all token lists up to the bound, a parse error after any item and at any rune, "
             "all interleavings) for deadlock freedom, 'every quiescent state is a returned call with lookups or an "
             "error carrying a line and no goroutine left', and termination under weak fairness; the as-read variants "
-            "(unbuffered decoder channel, error items without a line) must fail in TLC. TLC-enumerated fault cases are "
+            "(unbuffered decoder channel, channel one short per escaped backslash, error items without a line, a comment loop "
+            "that ignores end of input, lexer started before the preconditions of Parse hold) must fail in TLC. TLC-enumerated fault cases are "
             "mapped onto mutated Explain-generated descriptions and run through the real builder.Parse under "
             "GOMAXPROCS 1,2,4,16 with repetitions, together with every single-token mutation and random texts; "
             "TLC-enumerated lookup-list shapes (GSUB 1-6, GPOS 1-4, flag subsets, 1-3 subtables, class/coverage forms, "
             "backtrack/lookahead 0-2, nested actions) are instantiated over fonts with/without names and cmap and "
-            "round-tripped through Explain -> Parse; hand-specified descriptions are compared with the meaning TLC "
+            "round-tripped through Explain -> Parse (sizes up to 40 entries per key and 20 subtables, order and subtable "
+            "formats preserved, GSUB1 deltas -1/-255/-256/wrapping); every lexical construct is placed at the end of the "
+            "input and cut at every character; fonts without a usable cmap must still return cleanly; hand-specified descriptions are compared with the meaning TLC "
             "computes. Every recorded observation is accepted or rejected by TLC against DslTrace.tla.",
     "note": "Trusted: TLC, the goroutine probe of the harness (runtime.Stack filtered to builder frames, goroutine "
             "blocked in a channel operation after the call returned = leaked), the canonical projection of lookup lists "
